@@ -30,9 +30,9 @@ type VerifUnitResult struct {
 	Shadowed    int              `json:"shadowed"` // second deviation lies inside a collection the first one replaces
 	Nontrivial  int              `json:"nontrivial"`
 	Distinct    int              `json:"distinct"`
-	O3Pairs     int              `json:"o3_pairs"`     // parent/child pairs with different encodings, decoded values compared
-	O3Same      int              `json:"o3_same_enc"`  // pairs with identical encodings (field not transmitted in this version)
-	Readback    int              `json:"o3_readback"`  // deviating leaf located in the decoded value and compared
+	O3Pairs     int              `json:"o3_pairs"`    // parent/child pairs with different encodings, decoded values compared
+	O3Same      int              `json:"o3_same_enc"` // pairs with identical encodings (field not transmitted in this version)
+	Readback    int              `json:"o3_readback"` // deviating leaf located in the decoded value and compared
 	ByteIdent   int              `json:"o2_byte_identical_checked"`
 	WireFacts   int              `json:"o4_facts"`
 	Outcomes    map[string]int   `json:"outcomes"`
